@@ -11,6 +11,8 @@ import (
 	"encoding/json"
 	"sort"
 
+	"google.golang.org/protobuf/encoding/prototext"
+
 	gpb "github.com/openconfig/gnmi/proto/gnmi"
 	pb "github.com/openconfig/gnmi/proto/target"
 )
@@ -51,18 +53,32 @@ const (
 	bodyNil = 4
 	// credEmpty: credentials present but empty (&pb.Credentials{}).
 	credEmpty = 3
+
+	// Values of part "edges" (edges.go). bodyFullA / bodyFullB are two different
+	// requests that meet everything target.proto asks of a request ("at minimum a
+	// SubscriptionList with a prefix containing origin and one or more
+	// Subscriptions", STREAM mode); bodyPoll carries the other oneof arm and
+	// bodyNoSubs a subscription list with prefix and origin but no subscription.
+	bodyFullA  = 5
+	bodyFullB  = 6
+	bodyPoll   = 7
+	bodyNoSubs = 8
+	// Credentials with only some of their fields.
+	credUserOnly = 4
+	credPassOnly = 5
+	credIDOnly   = 6
 )
 
 // normBody maps any integer to a body index (the two degenerate ones are kept).
 func normBody(b int) int {
-	if b == bodyEmpty || b == bodyNil {
+	if b >= bodyEmpty && b <= bodyNoSubs {
 		return b
 	}
 	return mod(b, nBodies)
 }
 
 func normCred(c int) int {
-	if c == credEmpty {
+	if c >= credEmpty && c <= credIDOnly {
 		return c
 	}
 	return mod(c, nCreds)
@@ -85,6 +101,10 @@ const (
 	// reprNilInner: body 2 carries the subscribe wrapper with a nil
 	// SubscriptionList instead of an empty one (equal content).
 	reprNilInner = 2
+	// reprText: the message went through the text format and back, the way a
+	// configuration file reaches the package (cmd/gnmi_collector). Not applied
+	// to configurations with a nil map value (the text format has none).
+	reprText = 4
 )
 
 // body returns a fresh request body number i (three pairwise different bodies,
@@ -95,6 +115,26 @@ func body(i int) *gpb.SubscribeRequest {
 		return &gpb.SubscribeRequest{}
 	case bodyNil:
 		return nil
+	case bodyFullA:
+		return &gpb.SubscribeRequest{Request: &gpb.SubscribeRequest_Subscribe{Subscribe: &gpb.SubscriptionList{
+			Prefix:       &gpb.Path{Origin: "openconfig"},
+			Subscription: []*gpb.Subscription{{Path: &gpb.Path{Elem: []*gpb.PathElem{{Name: "interfaces"}}}}},
+		}}}
+	case bodyFullB:
+		return &gpb.SubscribeRequest{Request: &gpb.SubscribeRequest_Subscribe{Subscribe: &gpb.SubscriptionList{
+			Prefix: &gpb.Path{Origin: "openconfig"},
+			Subscription: []*gpb.Subscription{
+				{Path: &gpb.Path{Elem: []*gpb.PathElem{{Name: "system"}}}},
+				{Path: &gpb.Path{Elem: []*gpb.PathElem{{Name: "lldp"}}}},
+			},
+		}}}
+	case bodyPoll:
+		return &gpb.SubscribeRequest{Request: &gpb.SubscribeRequest_Poll{Poll: &gpb.Poll{}}}
+	case bodyNoSubs:
+		return &gpb.SubscribeRequest{Request: &gpb.SubscribeRequest_Subscribe{Subscribe: &gpb.SubscriptionList{
+			Prefix:       &gpb.Path{Origin: "openconfig"},
+			Subscription: []*gpb.Subscription{},
+		}}}
 	case 0:
 		return &gpb.SubscribeRequest{Request: &gpb.SubscribeRequest_Subscribe{Subscribe: &gpb.SubscriptionList{
 			Prefix:       &gpb.Path{Target: "t"},
@@ -118,6 +158,12 @@ func creds(i int) *pb.Credentials {
 		return &pb.Credentials{Username: "u1", PasswordId: "id-7"}
 	case credEmpty:
 		return &pb.Credentials{}
+	case credUserOnly:
+		return &pb.Credentials{Username: "u1"}
+	case credPassOnly:
+		return &pb.Credentials{Password: "p1"}
+	case credIDOnly:
+		return &pb.Credentials{PasswordId: "id-7"}
 	}
 	return nil
 }
@@ -137,9 +183,11 @@ func meta(i int) map[string]string {
 // TargetSpec is one entry of the target map. All fields are indices into the
 // pools, so equality of specs is equality of the settings.
 type TargetSpec struct {
-	Nil    bool   `json:"nil,omitempty"` // the map value is a nil *pb.Target
-	Addr   int    `json:"addr"`          // index into addrPool, 0 = no address
-	Req    string `json:"req"`           // request name, "" = missing
+	Nil    bool   `json:"nil,omitempty"`   // the map value is a nil *pb.Target
+	Empty  bool   `json:"empty,omitempty"` // the map value is an empty message (&pb.Target{}); the other fields are zero
+	Addr   int    `json:"addr"`            // index into addrPool, 0 = no address
+	AddrX  int    `json:"addrx,omitempty"` // k > 0: the address list is edgeAddrs[k-1] instead (part "edges")
+	Req    string `json:"req"`             // request name, "" = missing
 	Cred   int    `json:"cred,omitempty"`
 	Meta   int    `json:"meta,omitempty"`
 	Dialer int    `json:"dialer,omitempty"`
@@ -190,16 +238,31 @@ func mod(i, n int) int {
 
 func (t TargetSpec) build() *pb.Target { return t.buildRepr(0) }
 
+// addrs returns the address list of the target (shared, do not modify).
+func (t TargetSpec) addrs() []string {
+	if t.AddrX > 0 {
+		return edgeAddrs[mod(t.AddrX-1, len(edgeAddrs))]
+	}
+	return addrPool[mod(t.Addr, len(addrPool))]
+}
+
 func (t TargetSpec) buildRepr(repr int) *pb.Target {
 	if t.Nil {
 		return nil
 	}
+	if t.Empty {
+		return &pb.Target{}
+	}
+	addrs := t.addrs()
 	out := &pb.Target{
-		Addresses:   append([]string(nil), addrPool[mod(t.Addr, len(addrPool))]...),
+		Addresses:   append([]string(nil), addrs...),
 		Request:     t.Req,
 		Credentials: creds(normCred(t.Cred)),
 		Meta:        meta(mod(t.Meta, nMetas)),
 		Dialer:      dialerPool[mod(t.Dialer, len(dialerPool))],
+	}
+	if addrs != nil && len(addrs) == 0 {
+		out.Addresses = []string{} // an edge value of its own: the list is there and has no entry
 	}
 	if repr&reprEmptyMaps != 0 {
 		if out.Addresses == nil {
@@ -242,7 +305,25 @@ func (c *ConfigSpec) buildRepr(repr int) *pb.Configuration {
 			cfg.Target[n] = t.buildRepr(repr)
 		}
 	}
+	if repr&reprText != 0 && c.textRepresentable() {
+		if b, err := prototext.Marshal(cfg); err == nil {
+			out := &pb.Configuration{}
+			if err := prototext.Unmarshal(b, out); err == nil {
+				return out
+			}
+		}
+	}
 	return cfg
+}
+
+// textRepresentable: no map value of c is a nil message.
+func (c *ConfigSpec) textRepresentable() bool {
+	for _, t := range c.Targets {
+		if t.Nil {
+			return false
+		}
+	}
+	return !c.hasNilBody()
 }
 
 // nilRequestTargets returns the names of the targets that refer to a request
@@ -277,7 +358,7 @@ func (c *ConfigSpec) invalidReasons() []string {
 			set["nil-target"] = true
 			continue
 		}
-		if mod(t.Addr, len(addrPool)) == 0 {
+		if len(t.addrs()) == 0 || t.Empty {
 			set["no-address"] = true
 		}
 		if t.Req == "" {
@@ -332,7 +413,9 @@ type Edit struct {
 	// Kind: req-edit | req-rename | req-add | req-del | tgt-add | tgt-remove |
 	// tgt-repoint | tgt-addr | tgt-cred | tgt-meta | tgt-dialer | cfg-instance | cfg-meta |
 	// inv-empty-name | inv-nil-target | inv-no-address | inv-missing-request | inv-dangling-request |
-	// req-nil | req-empty | tgt-cred-empty (degenerate but valid values)
+	// req-nil | req-empty | tgt-cred-empty (degenerate but valid values) |
+	// e-req-key | e-tgt-noreq | e-tgt-reqvar | e-reqkey-var | e-tgt-name | e-tgt-value | e-addr | e-cred | e-body |
+	// e-body-full (values at the edges of the validity predicate, edges.go)
 	Kind string `json:"kind"`
 	Pick int    `json:"pick,omitempty"` // which existing target / request
 	Name int    `json:"name,omitempty"` // which free pool name
@@ -342,6 +425,10 @@ type Edit struct {
 	Cred int    `json:"cred,omitempty"`
 	Meta int    `json:"meta,omitempty"`
 	Dial int    `json:"dial,omitempty"`
+	// Part "edges" (kinds e-*, see edges.go): Var selects the edge value, Pair
+	// asks for the neighbouring entry that goes with it.
+	Var  int  `json:"var,omitempty"`
+	Pair bool `json:"pair,omitempty"`
 }
 
 // newTarget adds a fresh, valid target under name (creating a request if the
@@ -369,7 +456,7 @@ func freeTarget(c *ConfigSpec, e Edit) (string, bool) {
 func pickLive(c *ConfigSpec, pick int) (string, bool) {
 	var live []string
 	for _, n := range sortedTargets(c) {
-		if !c.Targets[n].Nil {
+		if !c.Targets[n].Nil && !c.Targets[n].Empty {
 			live = append(live, n)
 		}
 	}
@@ -520,6 +607,9 @@ func applyEdit(c *ConfigSpec, e *Edit) bool {
 		n, _ := pickLive(c, e.Pick)
 		t := c.Targets[n]
 		k := len(addrPool) - 1
+		if t.AddrX != 0 {
+			t.AddrX, t.Addr = 0, 0
+		}
 		if a := mod(t.Addr, len(addrPool)); a == 0 {
 			t.Addr = 1 + mod(e.Addr, k)
 		} else {
@@ -582,7 +672,7 @@ func applyEdit(c *ConfigSpec, e *Edit) bool {
 		case "inv-nil-target":
 			t = TargetSpec{Nil: true}
 		case "inv-no-address":
-			t.Addr = 0
+			t.Addr, t.AddrX = 0, 0
 		case "inv-missing-request":
 			t.Req = ""
 		case "inv-dangling-request":
@@ -596,7 +686,7 @@ func applyEdit(c *ConfigSpec, e *Edit) bool {
 		c.Targets[n] = t
 		return true
 	}
-	return false
+	return applyEdgeEdit(c, e)
 }
 
 // Scenario ---------------------------------------------------------------------
@@ -626,6 +716,11 @@ type Scenario struct {
 	Base     *ConfigSpec `json:"base,omitempty"`
 	BaseRepr int         `json:"base_repr,omitempty"`
 	Loads    []Load      `json:"loads"`
+	// Edges marks a scenario of part "edges": the base may be invalid (the
+	// constructor must then refuse it), every offered configuration is also put
+	// to the other entry points, and validity clauses the documentation leaves
+	// open are not judged (ConfigSpec.undecided).
+	Edges bool `json:"edges,omitempty"`
 }
 
 // settle removes the arguable transitions from spec: a request name / a target
